@@ -341,6 +341,10 @@ def user_kernels():
             f = os.path.join(d, 'carbon-slit.csv')
             raw[list(raw.columns[cols])].to_csv(f)
             paths.append(f)
+        # a third kernel next to the first, under a name that differs from it in letter case only (two files on a case-sensitive file system)
+        f = os.path.join(os.path.dirname(paths[0]), 'Carbon-Slit.csv')
+        raw[list(raw.columns[[10, 22, 34, 46, 58, 66]])].to_csv(f)
+        paths.append(f)
         _KERNELS['paths'] = paths
     return _KERNELS['paths']
 
@@ -478,6 +482,7 @@ def build_queries(tier):
     # kernels given by path: two files with the same name are two kernels
     add('psd_dft(user kernel A)', lambda w: pgc.psd_dft(w['p'], kernel=user_kernels()[0], branch='ads', p_limits=(0.06, 0.85), bspline_order=0), True)
     add('psd_dft(user kernel B, same file name)', lambda w: pgc.psd_dft(w['p'], kernel=user_kernels()[1], branch='ads', p_limits=(0.06, 0.85), bspline_order=0), True)
+    add('psd_dft(user kernel C, name differing from A in letter case)', lambda w: pgc.psd_dft(w['p'], kernel=user_kernels()[2], branch='ads', p_limits=(0.06, 0.85), bspline_order=0), True)
     # a kernel file that cannot be loaded (a bad cell in its last column): refused, and refused again
     add('ERR psd_dft(unloadable user kernel)', lambda w: pgc.psd_dft(w['p'], kernel=broken_kernel(), branch='ads', p_limits=(0.06, 0.85), bspline_order=0), True)
     # error paths: a query that is refused (possibly after it started working) must leave everything untouched as well
